@@ -3,7 +3,6 @@ package props
 import (
 	"encoding/json"
 	"fmt"
-	"io"
 	"os"
 	"os/exec"
 	"reflect"
@@ -116,7 +115,7 @@ func (c14r) Exec(r *kit.Run) {
 	r.Out.ScenarioKey = string(b)
 
 	var clock int64
-	barrier := make([]int64, sc.Names+16)
+	barrier := make([]int64, sc.Names+32)
 	runNo := atomic.LoadInt64(&c14rRuns)
 	// a struct type nobody has scanned into before (per run), shared by all goroutines of the run
 	freshType := reflect.StructOf([]reflect.StructField{{Name: "X", Type: reflect.TypeOf(0)}, {Name: fmt.Sprintf("Unused%d", runNo), Type: reflect.TypeOf("")}})
@@ -163,7 +162,8 @@ func (c14r) Exec(r *kit.Run) {
 				}
 			}
 			// phase 2: the same through interpreters
-			p := prolog.New(strings.NewReader(""), io.Discard)
+			var sink strings.Builder // this interpreter's own output
+			p := prolog.New(strings.NewReader(fmt.Sprintf("t(g%d, X, Y, X). ", gi)), &sink)
 			if err := p.Exec(":- dynamic(seen/2). p(1). p(2). q(X) :- p(X)."); err != nil {
 				out.evidence = append(out.evidence, fmt.Sprintf("goroutine %d: program did not load: %v", gi, err))
 				return
@@ -263,6 +263,49 @@ func (c14r) Exec(r *kit.Run) {
 				func() {
 					if err := p.QuerySolution("catch(throw(ball), B, true), B == ball, catch(atom_length(1, _), error(type_error(_, _), _), true).").Err(); err != nil {
 						bad("catch/3", nil, err)
+					}
+				},
+				func() {
+					// write options with a table of variable names; the text goes to this interpreter's own sink
+					a := sink.Len()
+					err := p.QuerySolution(fmt.Sprintf("write_term(f(X, Y, X, g%d), [variable_names(['Foo%d'=X, 'Bar'=Y]), quoted(true)]).", gi, gi)).Err()
+					if got, want := sink.String()[a:], fmt.Sprintf("f(Foo%d,Bar,Foo%d,g%d)", gi, gi, gi); err != nil || got != want {
+						bad("write_term/2 with variable_names", got, err)
+					}
+				},
+				func() {
+					// allocations that consult the free-memory probe (more than 8 terms at once)
+					var w struct{ N, M int }
+					if err := p.QuerySolution("functor(T, f, 12), T =.. [_|As], length(As, N), length(L, 20), copy_term(L, L2), length(L2, M).").Scan(&w); err != nil || w.N != 12 || w.M != 20 {
+						bad("functor/3, =../2, length/2 with more than 8 terms", w, err)
+					}
+				},
+				func() {
+					// a load that is abandoned with clauses pending must not reach anybody's next load
+					if err := p.Exec(fmt.Sprintf("who(stale_g%d). who(stale2_g%d). who(", gi, gi)); err == nil {
+						bad("a text with a syntax error", "no error", nil)
+					}
+				},
+				func() {
+					var w struct{ L []string }
+					if err := p.QuerySolution("consult(lib), findall(X, who(X), L).").Scan(&w); err != nil || fmt.Sprint(w.L) != fmt.Sprintf("[g%d]", gi) {
+						bad("consult(lib), findall(X, who(X), L) after an abandoned load", w.L, err)
+					}
+				},
+				func() {
+					var w struct {
+						T  prolog.TermString
+						Vs prolog.TermString
+					}
+					err := p.QuerySolution("read_term(T, [variable_names(Vs)]).").Scan(&w)
+					if want := fmt.Sprintf("t(g%d,", gi); err != nil || !strings.HasPrefix(string(w.T), want) || !strings.HasPrefix(string(w.Vs), "['X'=") {
+						bad("read_term/2 from its own input", fmt.Sprint(w.T, " ", w.Vs), err)
+					}
+				},
+				func() {
+					var w struct{ L prolog.TermString }
+					if err := p.QuerySolution("setof(X-Y, member(X-Y, [b-1, a-2, a-1]), L0), bagof(K, V^member(K-V, L0), L).").Scan(&w); err != nil || w.L != "[a,a,b]" {
+						bad("setof/3, bagof/3", w.L, err)
 					}
 				},
 			}
